@@ -260,6 +260,12 @@ def run_execution(cfg):
             if out == "hang" or out.startswith("harness") or out == "malformed":
                 w.final = {"status": out.upper(), "hang": info.get("hang")}
                 break
+            if out in ("raise", "crash") and be.exec_record_seq is not None:
+                # the backend accepted the execution's result record before the process died (lost
+                # acknowledgement): the execution is closed and is not invoked again
+                w.final = {"status": be.exec_status, "result": "", "error": None, "recorded_result": be.exec_result,
+                           "recorded_error": be.exec_error, "by_update": True}
+                break
             if out in ("raise", "crash"):
                 if cfg.get("stop_on_raise") and out == "raise":
                     w.final = {"status": "RAISED", "cls": info["exc_cls"]}
